@@ -40,6 +40,16 @@ void harness(void)
         tld_list[k].type = t;
     }
     tld_list[VF_K].domain = NULL; tld_list[VF_K].length = 0; tld_list[VF_K].type = 0;
+    /* like the shipped table (checked against the CSV on every run): rows in strictly ascending byte order,
+     * hence pairwise distinct - a lookup may rely on that (binary search, early exit) */
+    for (unsigned k = 0; k + 1 < VF_K; k++) {
+        int lt = 0, decided = 0;
+        for (unsigned j = 0; j <= VF_L; j++) {
+            unsigned char a = (unsigned char) names[k][j], b = (unsigned char) names[k + 1][j];
+            if (!decided && a != b) { lt = a < b; decided = 1; }
+        }
+        VF_ASSUME(decided && lt);
+    }
 
     unsigned char q[VF_L + 2];
     unsigned n = nondet_uint();
